@@ -667,6 +667,9 @@ def run_impl(case):
                 fail('later-build-differs', 'build number %d differs from the build of a fresh loader fed the same %d input(s): %s vs %s'
                      % (len(handles) - 1, len(accepted), dumps(dump(h))[:600], dumps(dump(fh))[:600]))
             _probe_sharing(loader, handles, fail, stats)
+            if m is not None:
+                _check_build_from_input(m, [s_ for ch in chunks[:len(accepted)] for s_ in ch], fail,
+                                        'build number %d' % (len(handles) - 1))
         elif op[0] == 'clone':
             if target is None:
                 res = Sym('no-target')
@@ -716,6 +719,53 @@ def run_impl(case):
     return {'obs': obs, 'd_fail': fails, 'nontrivial': nontrivial,
             'key': dumps([_enc_op(o, case) for o in case['ops']]) + '|' + str(hash(repr(chunks))),
             'stats': stats}
+
+
+def _check_build_from_input(m, stmts, fail, which):
+    """D, independent of any loader: a built metamodel holds, per class, one instance per INSERT accepted so far, in
+    INSERT order, each with the values as written (every attribute that is not referential; None when left out), and
+    links exactly the key-matching pairs — computed from the generated statements alone"""
+    raw = {}
+    by_kind = {}
+    for i, s_ in enumerate(stmts):
+        if s_['t'] == 'insert':
+            raw[i] = G.raw_row(stmts, s_)
+            by_kind.setdefault(s_['kind'], []).append(i)
+    for kind, ids in by_kind.items():
+        try:
+            mc = m.find_metaclass(kind)
+        except _DOC:
+            fail('build-misses-class', '%s has no class %s although %d INSERT(s) were accepted' % (which, kind, len(ids)))
+            return
+        if len(mc.storage) != len(ids):
+            fail('build-instance-count', '%s holds %d instances of %s, %d INSERT(s) were accepted' % (which, len(mc.storage), kind, len(ids)))
+            return
+        refs = G.referential_of(stmts, kind)
+        for inst, i in zip(mc.storage, ids):
+            for n, tv in raw[i].items():
+                if n in refs:
+                    continue
+                want = None if tv is None else G.py_value(tv)
+                got = inst.__dict__.get(n)
+                if got != want or type(got) is not type(want):
+                    fail('build-row-differs', '%s: instance of %s created by `%s` holds %s = %r, the statement says %r'
+                         % (which, kind, G.stmt_text(stmts[i]), n, got, want))
+                    return
+    assocs = [a for a in stmts if a['t'] == 'assoc']
+    if len(m.associations) != len(assocs):
+        fail('build-association-count', '%s holds %d associations, %d were accepted' % (which, len(m.associations), len(assocs)))
+        return
+    for ass, a in zip(m.associations, assocs):
+        S, T = by_kind.get(a['sk'], []), by_kind.get(a['tk'], [])
+        sc, tc = ass.source_link.to_metaclass, ass.target_link.to_metaclass
+        tpos = dict((id(o), T[j]) for j, o in enumerate(tc.storage)) if len(tc.storage) == len(T) else {}
+        for inst, i in zip(sc.storage, S):
+            got = set(tpos.get(id(o)) for o in ass.target_link.get(inst, ()))
+            want = set(j for j in T if G.key_match(a, raw[i], raw[j]))
+            if got != want:
+                fail('build-links-differ', '%s: `%s` is linked over %s to the INSERTs %s, the key predicate gives %s'
+                     % (which, G.stmt_text(stmts[i]), a['rel'], sorted(got, key=str), sorted(want)))
+                return
 
 
 def _probe_sharing(loader, handles, fail, stats):
